@@ -277,6 +277,22 @@ class Decoder:
                 else:
                     yield neg, ("unit",)
                 return
+            # a named "the line ends here" test (see the `match lex.peek_any()` form below): the next token is a line end and stays unconsumed
+            cv = peel_keep_clone(cond)
+            if cv.get("k") == "Path" and cv.get("res_kind") == "Local" and isinstance(st.env.get(cv["res"]), tuple) and st.env[cv["res"]][0] == "lineend?":
+                i = st.env[cv["res"]][1]
+                pos = st.fork()
+                while len(pos.toks) <= i:
+                    pos.toks.append(None)
+                if pos.toks[i] in (None, "$"):
+                    pos.toks[i] = "$"
+                    yield from self.run_expr(e["then"], pos)
+                neg = st.fork()
+                if e.get("else") is not None:
+                    yield from self.run_expr(e["else"], neg)
+                else:
+                    yield neg, ("unit",)
+                return
             # `matches!(tok.token_type(), TokenType::A | TokenType::B(_))`: the token ends the statement (newline / comment)
             mc = peel_keep_clone(cond)
             if mc.get("k") == "Match" and len(mc["arms"]) == 2:
@@ -306,6 +322,23 @@ class Decoder:
                 return
             raise Unextractable(f"unsupported if-condition at {e.get('sp')}")
         if k == "Match" and e.get("src") != "TryDesugar":
+            # `match lex.peek_any() { Ok(t) => matches!(t.token_type(), Newline | Comment(_)), Err(UnexpectedEOF) => true, Err(_) => false }`:
+            # "the line (or the input) ends here", decided on the next token without consuming it
+            sc0 = peel_keep_clone(e["scrut"])
+            if sc0.get("k") == "MethodCall" and sc0["name"] == "peek_any" and sc0["recv"].get("k") == "Path" and sc0["recv"].get("res") == self.lex:
+                ok_arm = [a for a in e["arms"] if any(kind == "path" and (v or "").endswith("Result::Ok") for kind, v in pat_variants(a["pat"]))]
+                err_arms = [a for a in e["arms"] if a not in ok_arm]
+                if len(ok_arm) == 1 and all(isinstance(lit_value(a["body"]), bool) for a in err_arms):
+                    b = peel_keep_clone(ok_arm[0]["body"])
+                    while b.get("k") == "Block" and not b.get("stmts") and b.get("expr") is not None:
+                        b = peel_keep_clone(b["expr"])
+                    if b.get("k") == "Match" and len(b["arms"]) == 2 and peel_keep_clone(b["scrut"]).get("k") == "MethodCall" and peel_keep_clone(b["scrut"])["name"] == "token_type":
+                        vs = {short(v) for kind, v in pat_variants(b["arms"][0]["pat"]) if kind == "path"}
+                        eof_arm = [a for a in err_arms if any((y.get("res") or "").endswith("UnexpectedEOF") for y in walk(a["pat"]))]
+                        if vs and vs <= {"Newline", "Comment"} and lit_value(b["arms"][0]["body"]) is True and lit_value(b["arms"][1]["body"]) is False:
+                            tok = st.peek()
+                            yield st, ("lineend?", tok[1], bool(eof_arm) and lit_value(eof_arm[0]["body"]) is True)
+                            return
             sv_state = st.fork()
             sv = self.ev(e["scrut"], sv_state)
             if sv[0] == "name":
